@@ -17,7 +17,8 @@ RULE = ("cases = (script, mode [, group_by_type, normalize_names]): seeded rando
         "kinds (core tables, every dialect table, ALTER groups incl. multi-column foreign keys, indexes, types, sequences, domains, "
         "schemas, SET) and every regression-corpus script, each run in all 15 output modes (thorough: x group_by_type x "
         "normalize_names) and compared with the default mode. Non-trivial = the script yields at least one table in default mode; "
-        "distinct = distinct (script, flags).") % len(GS.all_kinds())
+        "distinct = distinct (script, flags)."
+        " Added after seeded defects: every second script comes from the shared pool of all generators (vf.gen.sources), project-qualified names mixed with two-part references, one parser object asked for a sequence of modes.") % len(GS.all_kinds())
 ASSUMPTIONS = ["tolerated mode-specific presentation: dataset for schema (bigquery), 'clustered' inside mssql index entries, per-column encode (redshift) / encrypt (oracle) keys wherever a column dict appears",
                "the field -> modes table below is frozen from the pinned tree"]
 MIN_EVENTS = {"run_return": 500}
